@@ -49,6 +49,7 @@ class Body(Task):
             _emit(self.log, {"e": "fail", "p": me, "pid": os.getpid()})
             raise AssertionError("failing as planned")
         d = c * 2
+        print(f"result of {me}: {d}", flush=True)       # what the job leaves on its standard output
         _emit(self.log, {"e": "end", "p": me, "pid": os.getpid()})
         return d
 
